@@ -955,6 +955,136 @@ Proof.
   - rewrite qsize_cons, tree_size_dir. unfold qsize. simpl. lia.
 Qed.
 
+(* ================================================================== *)
+(* what an observer sees after a script of semantic operations           *)
+
+Lemma strip_prefix_app_same A x y : strip_prefix (A ++ x) (A ++ y) = strip_prefix x y.
+Proof. induction A as [|a A IH]; simpl; auto. rewrite name_eqb_refl. exact IH. Qed.
+
+Lemma is_prefix_app_same A x y : is_prefix (A ++ x) (A ++ y) = is_prefix x y.
+Proof. unfold is_prefix. rewrite strip_prefix_app_same. reflexivity. Qed.
+
+Lemma strip_prefix_None_app A q x : strip_prefix A q = None -> strip_prefix (A ++ x) q = None.
+Proof.
+  revert q; induction A as [|a A IH]; intros q; simpl; [discriminate|].
+  destruct q as [|b q]; auto. destruct (name_eqb a b); auto.
+Qed.
+
+Lemma prefix_comparable q A x :
+  is_prefix q (A ++ x) = true -> strip_prefix A q = None -> is_prefix q A = true.
+Proof.
+  revert A; induction q as [|b q IH]; intros A; [reflexivity|].
+  destruct A as [|a A]; [discriminate|]. simpl app. rewrite !is_prefix_cons. simpl.
+  rewrite (name_eqb_sym a b). destruct (name_eqb b a); simpl; [apply IH|discriminate].
+Qed.
+
+Lemma is_prefix_longer (x : list name) m y : is_prefix (x ++ m :: y) x = false.
+Proof.
+  destruct (is_prefix (x ++ m :: y) x) eqn:E; auto.
+  apply is_prefix_true in E as [r E]. rewrite <- app_assoc in E.
+  rewrite <- (app_nil_r x) in E at 1. apply app_inv_head in E. discriminate.
+Qed.
+
+Lemma below_file src r c x : lookup src r = Some (File c) -> x <> [] -> lookup src (r ++ x) = None.
+Proof. intros L Hx. rewrite lookup_app, L. destruct x; [congruence|reflexivity]. Qed.
+
+Lemma prefix_of_node src r x t : lookup src (r ++ x) = Some t -> x <> [] -> look src r = Some EDir.
+Proof.
+  intros L Hx. rewrite lookup_app in L. unfold look. destruct (lookup src r) as [[c|ch]|]; try discriminate.
+  - destruct x; [congruence|discriminate]. - reflexivity.
+Qed.
+
+Lemma look_node src r t : lookup src r = Some t -> look src r = Some (entry_of t).
+Proof. unfold look. intros ->. reflexivity. Qed.
+
+Definition covered (l : list (list name * tree)) (r : list name) : bool :=
+  existsb (fun op => is_prefix r (fst op)) l.
+
+Definition sound (src : tree) (l : list (list name * tree)) : Prop :=
+  forall r t, In (r, t) l -> r <> [] /\ lookup src r = Some t.
+
+Lemma look_sem_op A fs r t q :
+  look (sem_op A fs (r, t)) q =
+  match t with
+  | Dir _ => if is_prefix q (A ++ r) then Some EDir else look fs q
+  | File c => match strip_prefix (A ++ r) q with
+              | Some [] => Some (EFile c)
+              | Some (_ :: _) => None
+              | None => if is_prefix q (A ++ r) then Some EDir else look fs q
+              end
+  end.
+Proof. unfold sem_op. cbn [fst snd]. destruct t; [apply look_write_at|apply look_ensure_dir]. Qed.
+
+Lemma sound_prefix_dir src r r1 t1 :
+  lookup src r1 = Some t1 -> is_prefix r r1 = true -> r <> r1 -> look src r = Some EDir.
+Proof.
+  intros L P N. apply is_prefix_true in P as [x ->]. destruct x as [|m x].
+  - rewrite app_nil_r in N. congruence.
+  - eapply prefix_of_node; eauto. discriminate.
+Qed.
+
+Lemma fold_view A src : forall l fs0,
+  sound src l ->
+  (forall q, is_prefix q A = true -> look fs0 q = Some EDir) ->
+  (forall r c r', In (r, File c) l -> r' <> [] -> look fs0 (A ++ r ++ r') = None) ->
+  forall q, look (fold_left (sem_op A) l fs0) q =
+    match strip_prefix A q with
+    | Some r => if covered l r then look src r else look fs0 q
+    | None => look fs0 q
+    end.
+Proof.
+  induction l as [|[r1 t1] l IH]; intros fs0 S HA HF q.
+  - simpl. destruct (strip_prefix A q); reflexivity.
+  - destruct (S r1 t1 (or_introl eq_refl)) as [Hr1 L1].
+    assert (S' : sound src l) by (intros r t I; apply S; right; assumption).
+    cbn [fold_left]. rewrite IH; auto.
+    + (* the main computation *)
+      destruct (strip_prefix A q) as [r|] eqn:SP.
+      * apply strip_prefix_Some in SP. subst q. cbn [covered existsb fst].
+        fold (covered l r). destruct (covered l r); [rewrite orb_true_r; reflexivity|]. rewrite orb_false_r.
+        rewrite look_sem_op. destruct t1 as [c1|ch1].
+        -- rewrite strip_prefix_app_same, is_prefix_app_same.
+           destruct (strip_prefix r1 r) as [[|m x]|] eqn:SP1.
+           ++ apply strip_prefix_Some in SP1. rewrite app_nil_r in SP1. subst r.
+              rewrite is_prefix_refl. rewrite (look_node _ _ _ L1). reflexivity.
+           ++ apply strip_prefix_Some in SP1. subst r. rewrite is_prefix_longer.
+              symmetry. apply (HF r1 c1 (m :: x)); [left; reflexivity|discriminate].
+           ++ destruct (is_prefix r r1) eqn:P; [|reflexivity].
+              symmetry. eapply sound_prefix_dir; eauto. intros ->.
+              unfold is_prefix in P. rewrite SP1 in P. discriminate.
+        -- rewrite is_prefix_app_same. destruct (is_prefix r r1) eqn:P; [|reflexivity].
+           destruct (list_eq_dec (list_eq_dec Z.eq_dec) r r1) as [->|N].
+           ++ rewrite (look_node _ _ _ L1). reflexivity.
+           ++ symmetry. eapply sound_prefix_dir; eauto.
+      * rewrite look_sem_op. destruct t1 as [c1|ch1].
+        -- rewrite (strip_prefix_None_app _ _ r1 SP).
+           destruct (is_prefix q (A ++ r1)) eqn:P; [|reflexivity].
+           symmetry. apply HA. eapply prefix_comparable; eauto.
+        -- destruct (is_prefix q (A ++ r1)) eqn:P; [|reflexivity].
+           symmetry. apply HA. eapply prefix_comparable; eauto.
+    + (* prefixes of A stay directories *)
+      intros q0 P0. rewrite look_sem_op. destruct t1 as [c1|ch1].
+      * destruct (strip_prefix (A ++ r1) q0) as [x|] eqn:E.
+        -- exfalso. apply strip_prefix_Some in E. apply is_prefix_true in P0 as [y P0].
+           subst q0. rewrite <- !app_assoc in P0. rewrite <- (app_nil_r A) in P0 at 1.
+           apply app_inv_head in P0. symmetry in P0. apply app_eq_nil in P0 as [P0 _]. contradiction.
+        -- rewrite (HA q0 P0). destruct (is_prefix q0 (A ++ r1)); reflexivity.
+      * rewrite (HA q0 P0). destruct (is_prefix q0 (A ++ r1)); reflexivity.
+    + (* nothing appears below a file of the source *)
+      intros r c r' I Hr'. destruct (S r (File c) (or_intror I)) as [_ Lr].
+      assert (NP : is_prefix (r ++ r') r1 = false).
+      { destruct (is_prefix (r ++ r') r1) eqn:P; auto. apply is_prefix_true in P as [x P].
+        rewrite <- app_assoc in P. rewrite P in L1. rewrite (below_file _ _ _ _ Lr) in L1; [discriminate|].
+        destruct r'; [congruence|discriminate]. }
+      rewrite look_sem_op. destruct t1 as [c1|ch1].
+      * rewrite strip_prefix_app_same, is_prefix_app_same, NP.
+        destruct (strip_prefix r1 (r ++ r')) as [[|m x]|] eqn:SP1; try reflexivity.
+        -- apply strip_prefix_Some in SP1. rewrite app_nil_r in SP1. rewrite <- SP1 in L1.
+           rewrite (below_file _ _ _ _ Lr Hr') in L1. discriminate.
+        -- apply (HF r c r'); [right; assumption|assumption].
+      * rewrite is_prefix_app_same, NP. apply (HF r c r'); [right; assumption|assumption].
+Qed.
+
 (* names used by the witnesses: "foo", "x", "y", "a" *)
 Definition n_foo : name := [102; 111; 111].
 Definition n_x : name := [120].
